@@ -12,6 +12,15 @@
 #undef protected
 using namespace vx;
 
+// an argument expression that looks at the function's context cache while it is being evaluated (a nested call of the
+// same function inside the argument list would take whatever is at the front of the cache)
+static FunctorManager* g_fm = nullptr; static Context* g_rc = nullptr; static bool g_avail_during_binding = false;
+struct ProbeExpr : SymExpr {
+  Value& value(Context& c) const override {
+    if (g_fm && !g_fm->_declarations[0].ctx_cache.empty() && g_fm->_declarations[0].ctx_cache.front() == g_rc) g_avail_during_binding = true;
+    return SymExpr::value(c);
+  }
+};
 // K1: one inductive step over the cache state: the cached runtime context is whatever an earlier
 // call may have left behind (arbitrary values of parameter A and local X, arbitrary return flag).
 extern "C" void c08_k1()
@@ -36,12 +45,14 @@ extern "C" void c08_k1()
   rc->_recursion = 7;
   fm._declarations[0].ctx_cache.push_front(rc);
   verif_known(KF_FUNCTION_LOCALS_SURVIVE_CALLS, xset);
-  static SymExpr arg; static Value av{Integer(0)}; *av.integer() = a; av.to_lvalue(true); arg.v = &av;
+  static ProbeExpr arg; static Value av{Integer(0)}; *av.integer() = a; av.to_lvalue(true); arg.v = &av;
+  g_fm = &fm; g_rc = rc;
   std::vector<Expression*> pv(1); pv[0] = &arg;
   unsigned char depth = in_uchar(0); verif_assume(depth < 255); root._recursion = depth;
   {
     FunctorManager::Env env = fm.createEnv(root, 0, pv);
     verif_assert(&env.context() == rc, "C08: cached context reused");
+    verif_assert(!g_avail_during_binding, "C08: the context of a call in preparation is not available to a nested call of the same function made by its own arguments");
     verif_assert(env.context().recursion() == depth + 1, "C08: recursion depth is caller + 1");
     verif_assert(!env.context().returnCondition(), "C08: no pending return in a fresh call");
     Value& pa = env.context().loadVariable(0);
